@@ -103,7 +103,7 @@ func runC20(c *Ctx, n, t int, shape string, seed uint64) {
 	if viaCLI {
 		wit["operator_channel"] = "dc4bc_cli + dkg_reinitializer binaries"
 	}
-	w, err := world.NewWorld(world.Options{N: n, T: t, Seed: seed, ViaHTTP: viaHTTP, ViaCLI: viaCLI})
+	w, err := world.NewWorld(world.Options{N: n, T: t, Seed: seed, ViaHTTP: viaHTTP, ViaCLI: viaCLI, OddNames: seed%3 == 1})
 	if err != nil {
 		c.Inconclusive("world: %v", err)
 		return
